@@ -92,14 +92,24 @@ func (gi *gitlabImporter) ImportAll(ctx context.Context, repo *cache.RepoCache, 
 				StateEvents(ctx, gi.client, issue),
 			)
 
+			// Events are imported in the order they happened. Once one of them failed, the later
+			// ones wait for the next import (which starts again from the failed one): importing
+			// them now would put them before it for good.
+			failed := false
 			for e := range issueEvents {
+				if failed {
+					// only drain the channel
+					continue
+				}
 				if e, ok := e.(ErrorEvent); ok {
 					out <- core.NewImportError(e.Err, "")
+					failed = true
 					continue
 				}
 				if err := gi.ensureIssueEvent(repo, b, issue, e); err != nil {
 					err := fmt.Errorf("issue event creation: %v", err)
 					out <- core.NewImportError(err, entity.Id(e.ID()))
+					failed = true
 				}
 			}
 
